@@ -25,7 +25,11 @@ def run(ctx):
                    'the unlock of _m (notify under the mutex), _is_ready only under _m, Wait re-tests after a wake-up',
                    minimum=3)
     tot = 0
+    rho = ctx.rule('R-HANDOFF', 'a When* combinator is not touched after its last input has been registered: the registration loop\'s condition / increment and the code after it work on locals only', minimum=2)
     for cfg, fb in sorted(fbs.items()):
+        from rules import lib_when as _lw2
+        if (ctx.guard(lambda: _lw2.check_handoff_loops(ctx, fb, rho)) or 0) < 1 and cfg == 'K17':
+            ctx.guard(lambda: ctx.broken('R-HANDOFF: no registration loop of a When* combinator found'))
         if cfg != 'K20n':
             ctx.guard(lambda: c11.check_wait_return(ctx, fb, rwr))
             ctx.guard(lambda: c11.check_mutex_event(ctx, fb, rev, cfg))
